@@ -359,3 +359,43 @@ Proof.
   - split; [|assumption]. intro. subst pad. change (SP :: rest = drop_sp (SP :: rest)) in Ep.
     rewrite <- Ep in Gp. apply Gp. reflexivity.
 Qed.
+
+(* bar graph fed frame by frame: the per-row clauses of the final-screen check.  Grouped: every
+   value of the row has, on its own line, the bar of the value against the final maximum followed
+   by the formatted value; stacked: the row's line ends with the stacked bar of the last values
+   against the final maximum and the formatted total. *)
+Lemma grouped_tails_sound c size mx lines line : forall vals i0,
+  grouped_tails_ok c size mx lines line i0 vals = true ->
+  forall i v, nth_error vals i = Some v ->
+    exists gc bar h, group_color (i0 + i) = Ok gc /\
+      bar_write (c_uni c) round53 (scale (m_of (c_mp c)) round53 v 0 mx) size = Ok bar /\
+      nth (line + (i0 + i)) lines [] =
+        h ++ SP :: vis (c_col c) (cwrite (c_col c) gc bar ++ [SP] ++ fmt_of (c_fk c) v 0 mx).
+Proof.
+  induction vals as [|v0 r IH]; intros i0 H i v Hn. destruct i; discriminate Hn.
+  cbn [grouped_tails_ok] in H. apply andb_prop in H as [H1 H2]. destruct i.
+  - simpl in Hn. inversion Hn; subst. rewrite Nat.add_0_r.
+    destruct (group_color i0) as [gc|]; [|discriminate H1].
+    destruct (bar_write _ _ _ _) as [bar|]; [|discriminate H1].
+    apply ends_with_spec in H1 as [h Eh]. exists gc, bar, h. auto.
+  - simpl in Hn. replace (i0 + S i)%nat with (S i0 + i)%nat by lia. apply IH; assumption.
+Qed.
+Lemma bg_rows_sound c size stacked mx nk prefix lines : forall ops,
+  bg_rows_ok c size stacked mx nk prefix lines ops = true ->
+  forall pre idx key vals post, ops = pre ++ BBar idx key vals :: post -> last_for_idx idx post = true ->
+    if stacked then
+      exists bar h, bar_stacked (c_col c) (c_uni c) mx size vals = Ok bar /\
+        nth (idx + prefix) lines [] = h ++ SP :: SP :: vis (c_col c) (bar ++ [SP; SP] ++ fmt_of (c_fk c) (zsum vals) 0 mx)
+    else grouped_tails_ok c size mx lines (prefix + idx * nk) 0 vals = true.
+Proof.
+  induction ops as [|o r IH]; intros H pre idx key vals post E L.
+  - destruct pre; discriminate E.
+  - destruct pre as [|p pre].
+    + simpl in E. inversion E; subst. cbn [bg_rows_ok] in H. rewrite L in H.
+      apply andb_prop in H as [H1 _]. destruct stacked.
+      * destruct (bar_stacked _ _ _ _ _) as [bar|]; [|discriminate H1].
+        apply ends_with_spec in H1 as [h Eh]. exists bar, h. auto.
+      * assumption.
+    + simpl in E. inversion E; subst. apply (IH ltac:(destruct p; cbn [bg_rows_ok] in H;
+        [apply andb_prop in H as [_ H]; exact H | exact H | exact H]) pre idx key vals post eq_refl L).
+Qed.
